@@ -998,6 +998,20 @@ func (sc *SpecCtx) evalCall(e *ECall) (Val, error) {
 		}
 		vc.declareFun("blen_", []string{"Int"}, "Int")
 		return Val{T: app("blen_", sc.term(v)), Ty: types.Typ[types.Int]}, nil
+	case "hassuffix":
+		// hassuffix(s, "lit"): the string s ends with the literal
+		if len(e.Args) != 2 {
+			return Val{}, fmt.Errorf("hassuffix(s, \"literal\")")
+		}
+		lit, ok := e.Args[1].(*EStr)
+		if !ok {
+			return Val{}, fmt.Errorf("hassuffix: the second argument must be a string literal")
+		}
+		v, err := sc.eval(e.Args[0])
+		if err != nil {
+			return Val{}, err
+		}
+		return Val{T: vc.suffixTerm(lit.V, sc.term(v)), Ty: types.Typ[types.Bool]}, nil
 	case "crc32", "xxhash":
 		v, err := sc.eval(e.Args[0])
 		if err != nil {
